@@ -149,15 +149,19 @@ T == [
   State |-> [nb |-> 2, f |-> <<
      F("eigenstates", 3, 0, N),            \* (r,g), (g,h), (r,g,h)
      F("n_qudits", 3, 0, N),               \* 1, 2, 3
-     F("amplitudes", 3, 0, N) >>],         \* one basis state, two real, two with an imaginary one
+     F("amplitudes", 5, 0, N) >>],         \* one basis state, two real, two with an imaginary one,
+                                           \* 4: 0.6+5e-9j / 5e-9+0.8j, 5: 0.6+1e-12j / 0.8-1e-300j
+                                           \* (tiny imaginary / real parts: exactly representable)
   Operator |-> [nb |-> 2, f |-> <<
      F("eigenstates", 2, 0, N),            \* (r,g), (r,g,h)
      F("n_qudits", 2, 0, N),               \* 2, 3
-     F("operations", 3, 0, N) >>],         \* one term, two terms with complex weights, product on several qudits
+     F("operations", 4, 0, N) >>],         \* one term, two terms with complex weights, product on several
+                                           \* qudits, 4: weights 1+5e-9j, 5e-9+1j, 1e-12j, -1e-300j
   Results |-> [nb |-> 1, f |-> <<
      F("atom_order", 2, 0, N),             \* (q0, q1), (b, a, c)
      F("total_duration", 2, 0, N),         \* 100, 1000
-     F("content", 5, 1, N) >>]             \* empty, one float, counters at two times, two observables, complex value
+     F("content", 6, 1, N) >>]             \* empty, one float, counters at two times, two observables, complex
+                                           \* value, 6: complex values with tiny imaginary / real parts
 ]
 
 Flds(c) == T[c].f
